@@ -7,22 +7,7 @@
 From Verif Require Import Common.Base C09.Model C09.Spec C09.Proofs1 C09.Proofs2.
 From Verif Require Import Generated.C09Nodes Generated.C09Levels Generated.C09StabilityTable.
 From Coq Require Import String.
-
-Definition methods_of (n : node) : list String.string :=
-  match n with
-  | Recv _ _ => C09_receiverNode_methods
-  | Proc _ _ => C09_processorNode_methods
-  | Exp _ _ => C09_exporterNode_methods
-  | Conn _ _ _ => C09_connectorNode_methods
-  | Cap _ => C09_capabilitiesNode_methods
-  | Fan _ => C09_fanOutNode_methods
-  end.
-
-Definition m_Start : String.string := "Start"%string.
-Definition m_Shutdown : String.string := "Shutdown"%string.
-Definition m_getConsumer : String.string := "getConsumer"%string.
-
-Definition has_method (m : String.string) (l : list String.string) : bool := existsb (String.eqb m) l.
+From Verif Require Import C09.TieDefs.
 
 (* StartAll / ShutdownAll / buildComponents treat a node as a component iff it is a component.Component
    (Start + Shutdown in its method set): the model's [is_component] (hence [created], [start_all]). *)
@@ -47,25 +32,6 @@ Lemma tie_receiver_not_consumer_l : forall s r, has_method m_getConsumer (method
 Proof. intros. vm_compute. reflexivity. Qed.
 
 (* connectorStability: Model.supported agrees with the code on every probe factory *)
-Definition all_pairs : list (nat * nat) :=
-  flat_map (fun e => map (fun r => (e, r)) [0; 1; 2; 3]) [0; 1; 2; 3].
-
-Definition pair_eqb (a b : nat * nat) : bool := Nat.eqb (fst a) (fst b) && Nat.eqb (snd a) (snd b).
-
-Definition model_row (f : bool * list (nat * nat)) : list (nat * nat) :=
-  filter (fun p => supported (mkC [] [(0, Some f)] []) 0 (fst p) (snd p)) all_pairs.
-
-Definition row_ok (e : (bool * list (nat * nat)) * list (nat * nat)) : bool :=
-  list_eqb pair_eqb (model_row (fst e)) (snd e).
-
-(* every constructible single-pair factory of both kinds is in the table *)
-Definition covered (x : bool) (p : nat * nat) : bool :=
-  existsb (fun e => Bool.eqb (fst (fst e)) x && list_eqb pair_eqb (snd (fst e)) [p]) C09StabilityTable.
-
-Definition table_covers : bool :=
-  forallb (covered true) all_pairs &&
-  forallb (covered false) (filter (fun p => Nat.ltb (fst p) 3 && Nat.ltb (snd p) 3) all_pairs).
-
 Lemma tie_supported_table_l : forallb row_ok C09StabilityTable = true /\ table_covers = true.
 Proof. vm_compute. split; reflexivity. Qed.
 
